@@ -3,6 +3,7 @@ package main
 // Evaluation of contract expressions into symbolic values.
 
 import (
+	"regexp"
 	"fmt"
 	"go/constant"
 	"go/types"
@@ -1150,6 +1151,22 @@ func autoPatterns(body string, binders []string, isExists bool) []string {
 		return vs, size, childCand
 	}
 	walk(sx[0])
+	// a term taken from inside a nested quantifier may mention that quantifier's variables: not usable here
+	{
+		var keep []cand
+		for _, c := range cands {
+			foreign := false
+			for _, tokn := range boundVarRe.FindAllString(c.text, -1) {
+				if !isVar(tokn) {
+					foreign = true
+				}
+			}
+			if !foreign {
+				keep = append(keep, c)
+			}
+		}
+		cands = keep
+	}
 	// a bare (at off v) trigger is only safe when no (at off <compound index mentioning a bound variable>) occurs:
 	// otherwise every instance creates a new at-term that matches again (matching loop)
 	compoundAt := false
@@ -1231,6 +1248,8 @@ func autoPatterns(body string, binders []string, isExists bool) []string {
 	}
 	return nil
 }
+
+var boundVarRe = regexp.MustCompile(`q\.[A-Za-z0-9_$]+![0-9]+`)
 
 func containsVar(n *sexpr, vars []string) bool {
 	if !n.isL {
